@@ -806,6 +806,16 @@ func (s *mrState) totalKeySort(call *ast.CallExpr, ci *collectInfo, shape keySha
 				a = ast.Unparen(c.Args[0])
 			}
 		}
+		// a wrapper literal around the collected slice: byName{rows}
+		if cl, ok := a.(*ast.CompositeLit); ok && len(cl.Elts) == 1 {
+			e := cl.Elts[0]
+			if kv, ok := e.(*ast.KeyValueExpr); ok {
+				e = kv.Value
+			}
+			if tv, ok := s.info.Types[cl]; ok && wrapsOneSlice(tv.Type) {
+				a = ast.Unparen(e)
+			}
+		}
 		return objOf(s.info, a) == ci.obj
 	}
 	full := fn.FullName()
@@ -870,7 +880,77 @@ func (s *mrState) totalKeySort(call *ast.CallExpr, ci *collectInfo, shape keySha
 		}
 		return true, full + " with " + why
 	}
+	// a helper of the tree that is handed the collected slice: judged by the first thing it does with it
+	if ok, why, found := s.sortHelper(fn, call, argIs, ci, shape, 0); found {
+		return ok, why
+	}
 	return false, "not a recognised sort"
+}
+
+// sortHelper: fn is a function of the tree called with the collected slice as one argument (sortByValue(list, desc));
+// the first statement of its body that mentions that parameter must itself be a sort that is total on the key.
+func (s *mrState) sortHelper(fn *types.Func, call *ast.CallExpr, argIs func(int) bool, ci *collectInfo, shape keyShape, depth int) (bool, string, bool) {
+	if depth > 2 {
+		return false, "", false
+	}
+	for _, pkg := range s.p.Roots {
+		if pkg.Types != fn.Pkg() {
+			continue
+		}
+		for _, file := range pkg.Syntax {
+			for _, d := range file.Decls {
+				fd, ok := d.(*ast.FuncDecl)
+				if !ok || fd.Body == nil || pkg.TypesInfo.Defs[fd.Name] != types.Object(fn) || fd.Recv != nil {
+					continue
+				}
+				var param types.Object
+				i := 0
+				for _, f := range fd.Type.Params.List {
+					for _, n := range f.Names {
+						if argIs(i) {
+							param = pkg.TypesInfo.Defs[n]
+						}
+						i++
+					}
+				}
+				if param == nil {
+					return false, "", false
+				}
+				if _, isSlice := param.Type().Underlying().(*types.Slice); !isSlice {
+					return false, "", false
+				}
+				sub := &mrState{p: s.p, info: pkg.TypesInfo, site: s.site}
+				sci := &collectInfo{obj: param, nested: ci.nested}
+				for _, st := range fd.Body.List {
+					if !mentions(pkg.TypesInfo, st, param) {
+						continue
+					}
+					es, ok := st.(*ast.ExprStmt)
+					if !ok {
+						return false, "helper " + fn.Name() + " uses the slice before sorting it", true
+					}
+					c2, ok := es.X.(*ast.CallExpr)
+					if !ok {
+						return false, "helper " + fn.Name() + " uses the slice before sorting it", true
+					}
+					f2, _ := typeutil.Callee(pkg.TypesInfo, c2).(*types.Func)
+					if f2 != nil && f2.Pkg() == fn.Pkg() && f2 != fn {
+						a2 := func(i int) bool { return i < len(c2.Args) && objOf(pkg.TypesInfo, ast.Unparen(c2.Args[i])) == param }
+						if ok, why, found := sub.sortHelper(f2, c2, a2, sci, shape, depth+1); found {
+							return ok, why, true
+						}
+					}
+					ok, why := sub.totalKeySort(c2, sci, shape)
+					if !ok {
+						return false, "in helper " + fn.Name() + ": " + why, true
+					}
+					return true, "helper " + fn.Name() + ": " + why, true
+				}
+				return false, "helper " + fn.Name() + " never sorts the slice", true
+			}
+		}
+	}
+	return false, "", false
 }
 
 // comparatorTotalOnKey accepts less(i,j) bodies of the forms
@@ -902,8 +982,15 @@ func comparatorTotalOnKey(info *types.Info, lit *ast.FuncLit, slice types.Object
 			e = ast.Unparen(sel.X)
 		}
 		ix, ok := e.(*ast.IndexExpr)
-		if !ok || objOf(info, ix.X) != slice {
+		if !ok {
 			return 0, "", false
+		}
+		if objOf(info, ix.X) != slice {
+			// the slice kept in the single field of a wrapper the comparator is a method of: s.rows[i]
+			fs, isSel := ast.Unparen(ix.X).(*ast.SelectorExpr)
+			if !isSel || objOf(info, fs.X) != slice || !wrapsOneSlice(slice.Type()) {
+				return 0, "", false
+			}
 		}
 		io := objOf(info, ix.Index)
 		for k, p := range params {
@@ -1007,7 +1094,7 @@ func (s *mrState) lessMethodOf(t types.Type) (*ast.FuncLit, types.Object, *types
 	if !ok || nt.Obj().Pkg() == nil {
 		return nil, nil, nil
 	}
-	if _, isSlice := nt.Underlying().(*types.Slice); !isSlice {
+	if _, isSlice := nt.Underlying().(*types.Slice); !isSlice && !wrapsOneSlice(nt) {
 		return nil, nil, nil
 	}
 	for _, pkg := range s.p.Roots {
@@ -1029,4 +1116,14 @@ func (s *mrState) lessMethodOf(t types.Type) (*ast.FuncLit, types.Object, *types
 		}
 	}
 	return nil, nil, nil
+}
+
+// wrapsOneSlice: a structure type whose only field is a slice (type byName struct{ rows }).
+func wrapsOneSlice(t types.Type) bool {
+	st, ok := t.Underlying().(*types.Struct)
+	if !ok || st.NumFields() != 1 {
+		return false
+	}
+	_, isSlice := st.Field(0).Type().Underlying().(*types.Slice)
+	return isSlice
 }
